@@ -91,7 +91,7 @@ def run(ctx):
     binp = ctx.go_build("c24")
     if not binp:
         return
-    n = 1200 if ctx.tier == "quick" else 20000
+    n = 1500 if ctx.tier == "quick" else 20000
     rc, rows, err = ctx.jsonl([binp, "gen", "-seed", str(ctx.seed), "-n", str(n)], timeout=1200)
     if ctx.tier == "thorough":
         rc2, rows2, err2 = ctx.jsonl([binp, "exhaustive", "-n", "4"], timeout=1800)
@@ -146,7 +146,7 @@ def run(ctx):
     # ---------------- code legs + oracle leg inside the Coq kernel
     m_fmt, m_nil, m_int, m_spec, scope_twin = [], [], [], [], []
     n_printf = n_scope = 0
-    SH = 400 if ctx.tier == "quick" else 1000
+    SH = 500 if ctx.tier == "quick" else 1000
 
     def eval_shard(sh):
         part = rows[sh:sh + SH]
